@@ -982,6 +982,41 @@ def full_width_batch_equal(g, n):
             g.count("beq:fullwidth" + w)
 
 
+def large_batch_equal(g, b):
+    """an index with 120000 / 102500 columns (filled in blocks of 2500, highest block first, one value per block; values of both signs,
+    scattered) queried with BatchEqual lists of 128+ scattered values - mixed signs, one sign, with absent values - and with
+    short lists, for several worker counts: the large-list path must agree with the map semantics like the short-list path"""
+    if b.av("neg32"):
+        return
+    for w in ("32", "64"):
+        fam = "32" if w == "32" else "64"
+        s = g.fresh("lg")
+        g.emit("bnew %s %s" % (s, w))
+        vals = []
+        nblk = 48 if w == "32" else 41
+        for j in range(nblk - 1, -1, -1):
+            v = ((j * 7919) % 4001) - 2000
+            vals.append(v)
+            f = g.fresh("lf")
+            g.emit("fsr%s %s %d %d" % (fam, f, j * 2500, (j + 1) * 2500))
+            g.emit("bsetmany %s %s %d" % (s, f, v))
+        g.emit("bset %s 5 -123456789" % s)
+        g.emit("bset %s %d 987654321" % (s, nblk * 2500 - 1))
+        g.emit("bbits %s" % s)
+        neg = sorted(v for v in set(vals) if v < 0)
+        pos = sorted(v for v in set(vals) if v >= 0)
+        absent = [v for v in range(-1999, 2000, 13) if v not in set(vals)]
+        lists = [("mixed", neg + pos + absent[:150] + [-123456789, 987654321]), ("mixed-absent", absent[:200]),
+                 ("neg", neg + [v for v in absent if v < 0][:140]), ("pos", pos + [v for v in absent if v >= 0][:140]),
+                 ("short-mixed", [neg[0], pos[0], pos[-1], neg[-1]]), ("mixed-130", (neg + pos + absent)[:130])]
+        for cls, lst in lists:
+            for par in (0, 1, 4):
+                g.emit("beq %s %s %d %s" % (g.fresh("r"), s, par, " ".join(map(str, lst))))
+                g.count("beq-large%s:%s" % (w, cls))
+        g.emit("bcmp %s %s 2 RANGE -5 5" % (g.fresh("r"), s))
+        g.emit("bsum %s -" % s)
+
+
 def inc_negative_batch_equal(g, b):
     """32-bit index: Increment / Add touching a negative value, then every query family on the result (tag inc_neg32)"""
     if b.av("inc_neg32"):
@@ -1090,6 +1125,7 @@ def _bsiq(g, scale):
         b.episode_queries(g.r.choice([15, 30, 45]))
     full_width_batch_equal(g, max(1, int(3 * scale)))
     inc_negative_batch_equal(g, b)
+    large_batch_equal(g, b)
     add_plane_checks(g)
 
 
@@ -1185,6 +1221,31 @@ def _exhaustive_big(g, b, base, ncols):
     g.emit("bdump %s" % idx.name)
 
 
+def _big_small_ranges(g, b):
+    """64-bit index wider than int64 (one huge value) whose other columns hold EVERY value of [-50, 50]: RANGE for every start in
+    [-35, 0] x a spread of ends >= 0 (ranges spanning zero), every start/end pair of one sign on a coarser grid, every operator at
+    every constant in [-52, 52] - the per-column comparison automaton on two's-complement values sharing long high prefixes"""
+    if b.av("big_slow"):
+        return
+    for huge in ((1 << 70) + 3, -(1 << 81)):
+        idx = b.newidx(True, "big")
+        b.do_set(idx, 1, huge)
+        for v in range(-50, 51):
+            b.do_set(idx, 100 + (v + 50) * 3, v)
+        g.emit("bbits %s" % idx.name)
+        for s0 in range(-35, 1):
+            for e0 in (0, 1, 2, 3, 5, 7, 12, 21, 40):
+                g.emit("%s %s %s %d RANGE %d %d -" % ("bcmpbig" if (s0 + e0) % 2 else "bcmp", g.fresh("r"), idx.name, (s0 % 3), s0, e0))
+                g.count("xbig:RANGE-across-zero")
+        for s0 in range(-50, 51, 7):
+            for e0 in range(s0, 51, 5):
+                g.emit("bcmpbig %s %s 1 RANGE %d %d -" % (g.fresh("r"), idx.name, s0, e0))
+        for op in ("LT", "LE", "EQ", "GE", "GT"):
+            for k in range(-52, 53):
+                g.emit("bcmp %s %s 2 %s %d -" % (g.fresh("r"), idx.name, op, k))
+        g.emit("bdump %s" % idx.name)
+
+
 @suite("bsix")
 def _bsix(g, scale):
     """exhaustive tiny cases (C20): all operators x all constants in range, both implementations"""
@@ -1199,4 +1260,5 @@ def _bsix(g, scale):
     for base in (1 << 62, 1 << 63, 1 << 64, -(1 << 64), (1 << 70) + 3):
         for ncols in (1, 5, 9):
             _exhaustive_big(g, b, base, ncols)
+    _big_small_ranges(g, b)
     add_plane_checks(g)
